@@ -77,15 +77,24 @@ def _p1(ctx, rep):
     n_checked = 0
     for lp in loops:
         it = lp.iter
+        from ..reach import Reach
+
+        def source_ok(it_):
+            src_ = Reach(ctx, f).inline_at(it_, lp)
+            return src_, (unparse(src_).replace(" ", "").startswith("super().calc_estimate_sequence(qtomography,empi_dists_sequence")
+                          and unparse(src_).endswith(".estimated_qoperation_sequence"))
         if isinstance(it, ast.Call) and dotted(it.func) == "enumerate":
             it = it.args[0]
-            lv = lp.target.elts[1].id if isinstance(lp.target, ast.Tuple) else None
+            lv = lp.target.elts[1].id if isinstance(lp.target, ast.Tuple) and isinstance(lp.target.elts[1], ast.Name) else None
+        elif isinstance(it, ast.Call) and dotted(it.func) == "zip" and isinstance(lp.target, ast.Tuple) and len(it.args) == len(lp.target.elts) \
+                and not it.keywords and all(isinstance(x_, ast.Name) for x_ in lp.target.elts):
+            # the position of zip that carries the linear estimates
+            pos = next((i_ for i_, a_ in enumerate(it.args) if source_ok(a_)[1]), 0)
+            lv = lp.target.elts[pos].id
+            it = it.args[pos]
         else:
             lv = lp.target.id if isinstance(lp.target, ast.Name) else None
-        from ..reach import Reach
-        src = Reach(ctx, f).inline_at(it, lp)
-        src_ok = unparse(src).replace(" ", "").startswith("super().calc_estimate_sequence(qtomography,empi_dists_sequence") \
-            and unparse(src).endswith(".estimated_qoperation_sequence")
+        src, src_ok = source_ok(it)
         # body
         body_defs = {}
         for st in lp.body:
